@@ -334,6 +334,15 @@ func genCfg(r *rand.Rand, g GenOpts) *Cfg {
 		p.Deck = append(append([]string{}, c.Deck[17:]...), c.Deck[:17]...)
 		c.Prev = &p
 		c.PrevSteps = 1000
+		// a session of up to three earlier hands on the same object, the button moving on by one each time
+		last := &p
+		for k := r.Intn(3); k > 0 && c.Reuse == 1; k-- {
+			q := *last
+			q.DealerIdx = (last.DealerIdx + c.N - 1) % c.N
+			q.Deck = append(append([]string{}, last.Deck[5:]...), last.Deck[:5]...)
+			last.Prev, last.Reuse, last.PrevSteps = &q, 1, 1000
+			last = last.Prev
+		}
 	}
 	return c
 }
